@@ -7,7 +7,6 @@ package c15
 import (
 	"bytes"
 	"crypto"
-	"crypto/rsa"
 	"crypto/x509"
 	"crypto/x509/pkix"
 	"encoding/asn1"
@@ -631,6 +630,12 @@ func checkPolicy(c polCase, r *h.Rec) error {
 		if verr != nil || !ok || !isSHA1 {
 			return fmt.Errorf("independent verifier: the SHA-1 signature should be cryptographically valid (ok=%v sha1=%v err=%v)", ok, isSHA1, verr)
 		}
+		if sha1Allowed {
+			if err := leaf.CheckSignatureFrom(root.cert); err != nil {
+				return fmt.Errorf("CheckSignatureFrom on a %v certificate under GODEBUG=x509sha1=1: %v", alg, err)
+			}
+			return nil
+		}
 		var insecure x509.InsecureAlgorithmError
 		if err := leaf.CheckSignatureFrom(root.cert); !errors.As(err, &insecure) {
 			return fmt.Errorf("CheckSignatureFrom on a %v certificate returned %v, want InsecureAlgorithmError (der=%s)", alg, err, h.Hex(der))
@@ -741,4 +746,3 @@ func TestC15_Policy(t *testing.T) {
 	}, checkPolicy)
 }
 
-var _ = rsa.PublicKey{}
